@@ -68,6 +68,11 @@
 //! and by `x := -x;` in a cycle. Reals are compared by BITS everywhere (a retained -0.0 must come
 //! back as -0.0); which NaN arithmetic on a NaN yields is adopted. A stale load that differs from
 //! the expected value only in the sign of zero gets the feature `real:sign-of-zero`.
+//! Family memory also holds RETAIN / PERSISTENT variables located AT %M (global, program-level, bound
+//! through VAR_CONFIG): for them the %M image is NOT adopted — the retain model stays in force
+//! across the cycle that follows a restart / power cycle (the latch at cycle start must not destroy
+//! what was preserved). The finding names the event that left image and variable inconsistent
+//! (`<warm|cold|power-cycle>/retained-located-var-lost-at-next-cycle/<kind>`).
 //! Left out of the alphabet: `restart_with_retain(Cold)` / the resource loop's
 //! "restart then load_retain_store" (whether a cold start with a retain file present must ignore
 //! the file is not derivable from the statement); array/struct initialisers (not supported by
@@ -1057,38 +1062,77 @@ END_PROGRAM
 }
 
 /// F "memory": a global bound to the %M area (read at cycle start, written at cycle end).
-fn family_memory() -> Family {
-    let src = r#"CONFIGURATION Conf
+fn family_memory(persistent: bool) -> Family {
+    let pq = if persistent { Qual::Persistent } else { Qual::Retain };
+    let src = format!(
+        r#"CONFIGURATION Conf
 VAR_GLOBAL
     gm AT %MW0 : INT;
 END_VAR
+VAR_GLOBAL RETAIN
+    g_rm AT %MW2 : INT;
+END_VAR
+VAR_GLOBAL{pk}
+    g_pm AT %MW4 : INT;
+END_VAR
 PROGRAM P1 : Main;
+VAR_CONFIG
+    P1.p_cm AT %MW8 : INT;
+END_VAR
 END_CONFIGURATION
 
 PROGRAM Main
 VAR_EXTERNAL
     gm : INT;
+    g_rm : INT;
+    g_pm : INT;
+END_VAR
+VAR RETAIN
+    p_rm AT %MW6 : INT;
+    p_cm AT %M* : INT;
 END_VAR
 VAR
     c : INT;
     obs_main : INT;
 END_VAR
 gm := gm + 1;
+g_rm := g_rm + 1;
+g_pm := g_pm + 1;
+p_rm := p_rm + 1;
+p_cm := p_cm + 1;
 c := c + 1;
 obs_main := obs_main + 1;
 END_PROGRAM
-"#;
+"#,
+        pk = pq.kw()
+    );
     let mut gm = special("gm", "global", "cfg@%M", Ty::Int, MVal::I(0), Upd::Step, 0);
     gm.mem_addr = Some("%MW0".into());
     gm.bind_kind = Some("mem:global-var".into());
+    // retained variables located in %M: the retain model stays in force across the next cycle (the
+    // latch at cycle start must not destroy what the restart preserved), so their value is NOT
+    // adopted from the image
+    let located = |path: &str, coarse: &'static str, scope: &str, q: Qual, addr: &str, kind: &str| {
+        let mut v = special(path, coarse, scope, Ty::Int, MVal::I(0), Upd::Step, 0);
+        v.class = Class::Keep;
+        v.qual = q;
+        v.matrix = false;
+        v.mem_addr = Some(addr.into());
+        v.bind_kind = Some(format!("mem-retain:{kind}"));
+        v
+    };
     let vars = vec![
         gm,
+        located("g_rm", "global", "cfg@%M", Qual::Retain, "%MW2", "global-var"),
+        located("g_pm", "global", "cfg@%M", pq, "%MW4", "global-var"),
+        located("P1.p_rm", "program", "prog@%M", Qual::Retain, "%MW6", "program-var"),
+        located("P1.p_cm", "program", "prog@%M", Qual::Retain, "%MW8", "var-config"),
         special("P1.c", "program", "prog", Ty::Int, MVal::I(0), Upd::Step, 0),
         special("P1.obs_main", "program", "prog", Ty::Int, MVal::I(0), Upd::Step, 0),
     ];
     Family {
         name: "memory",
-        source: src.to_string(),
+        source: src,
         vars,
         units: vec![Unit { name: "P1:Main".into(), observer: Some("P1.obs_main".into()), follows: None, always: true }],
         in_bits: vec![],
@@ -1282,7 +1326,7 @@ fn family_by_name(name: &str, persistent: bool) -> Option<Family> {
         "bindings" => family_bindings(),
         "config-init" => family_config_init(),
         "single" => family_single(),
-        "memory" => family_memory(),
+        "memory" => family_memory(persistent),
         "store-explicit" => family_store(false, persistent),
         "store-every-cycle" => family_store(true, persistent),
         "store-reals" => family_store_reals(false),
@@ -1642,6 +1686,10 @@ fn run_trace(fam: &Family, events: &[Ev], report_from: usize) -> TraceOut {
     // reached the store (explicit save, the save of a power cycle, the periodic save of a cycle
     // when the interval is 0); the last entry is what a new process must load
     let mut flushes: Vec<BTreeMap<String, MVal>> = Vec::new();
+    // retained variables located in %M: the restart-like event that left the %M image different
+    // from the (preserved) variable — that event, not a later one, is to blame when the next latch
+    // destroys the value
+    let mut mem_culprit: BTreeMap<String, Ev> = BTreeMap::new();
     let mut model: BTreeMap<String, MVal> = fam.vars.iter().map(|v| (v.path.clone(), v.init.clone())).collect();
     let s0 = snapshot(fam, &h);
     if s0.vars != model {
@@ -1891,7 +1939,9 @@ fn run_trace(fam: &Family, events: &[Ev], report_from: usize) -> TraceOut {
                         model.insert(v.path.clone(), live);
                     }
                     for (j, img) in &mem_pre {
-                        model.insert(fam.vars[*j].path.clone(), img.clone());
+                        if fam.vars[*j].class != Class::Keep {
+                            model.insert(fam.vars[*j].path.clone(), img.clone());
+                        }
                     }
                     for j in 0..fam.vars.len() {
                         let u = fam.vars[j].unit;
@@ -2083,6 +2133,14 @@ fn run_trace(fam: &Family, events: &[Ev], report_from: usize) -> TraceOut {
                     }
                 }
                 last_disruption = Some(ev);
+                for v in fam.vars.iter().filter(|v| v.class == Class::Keep && v.mem_addr.is_some()) {
+                    let img = snap.mem.iter().find(|m| Some(&m.0) == v.mem_addr.as_ref()).map(|m| &m.1);
+                    if img == snap.vars.get(&v.path) {
+                        mem_culprit.remove(&v.path);
+                    } else {
+                        mem_culprit.entry(v.path.clone()).or_insert(ev);
+                    }
+                }
             }
         }
         let disrupted_now = last_disruption.is_some();
@@ -2110,6 +2168,19 @@ fn run_trace(fam: &Family, events: &[Ev], report_from: usize) -> TraceOut {
                     let detail = format!("{} ({}) is {}, reference model says {}", v.path, v.feature(), oshow(r), oshow(m));
                     match (&v.bind_kind, last_disruption) {
                         (_, None) => out.machinery.push(format!("family {} history [{}]: {detail} (no restart in the history: model/harness problem)", fam.name, hist_str(prefix))),
+                        (Some(k), Some(d)) if k.starts_with("mem-retain:") => {
+                            let clause = match mem_culprit.get(&v.path).copied().unwrap_or(d) {
+                                Ev::Warm => "warm",
+                                Ev::Cold => "cold",
+                                Ev::Power => "power-cycle",
+                                _ => "power-loss",
+                            };
+                            finds.push(Finding {
+                                sig: format!("C09/{clause}/retained-located-var-lost-at-next-cycle/{}", &k["mem-retain:".len()..]),
+                                what: format!("after [{}]: {detail} — the value the {clause} preserved for this RETAIN/PERSISTENT variable located in %M does not survive the latch of the following cycle (image {})", hist_str(prefix), oshow(prev.mem.iter().find(|m| Some(&m.0) == v.mem_addr.as_ref()).map(|m| &m.1))),
+                                step: i,
+                            });
+                        }
                         (Some(k), Some(_)) => finds.push(Finding { sig: format!("C09/binding/{k}"), what: format!("after [{}]: {detail}", hist_str(prefix)), step: i }),
                         (None, Some(d)) => mism.push((format!("divergence-after-{}", d.name()), j, detail)),
                     }
